@@ -89,6 +89,9 @@ def layouts(tier):
                                                          sg('B', 'NONE', -90000, -500000, 5, 4, 600, 300, 'linear', 3)]})
     out.append({'id': 'pad-junk', 'pad': b'\xde\xad\xbe\xef', 'subs': [sg('PAR', 'NONE', -108000, -540000, 6, 7, 600, 600, 'biquadratic', 0),
                                                                        sg('CHD', 'PAR', -108000 + 1200, -540000 + 1800, 11, 6, 120, 120, 'biquadratic', 2)]})
+    # the child sub-grid listed BEFORE its parent in the file
+    out.append({'id': 'child-first', 'subs': [sg('CHD', 'PAR', -108000 + 1200, -540000 + 1800, 11, 6, 120, 120, 'biquadratic', 2),
+                                               sg('PAR', 'NONE', -108000, -540000, 6, 7, 600, 600, 'biquadratic', 0)]})
     # three levels of nesting (grandchild) next to a disjoint grid in the other hemisphere
     for kind in ('linear', 'biquadratic'):
         out.append({'id': 'three-level-' + kind, 'subs': [sg('TOP', 'NONE', -108000, -540000, 6, 7, 600, 600, kind, 0),
